@@ -448,3 +448,7 @@ mod tests {
         assert!(output.is_err());
     }
 }
+
+#[cfg(all(test, pendulum_project_ntpd_rs_verif))]
+#[path = "/verif/harness/ntp_proto/probe_keyset.rs"]
+pub(crate) mod verif_probe;
